@@ -25,12 +25,15 @@ class TableJob:
     """One TLC exploration of MC.tla whose emitted rows are replayed on the code."""
 
     def __init__(self, name, acts, emit, vals="{1}", hosts='{"0"}', keylen=2, base="<<>>", maxcount=7,
-                 viewacct=False, entrydepth=1, maxnodes=99, targets=None, workers=8, timeout=1200, root="MC", extra_consts=None,
-                 inv=None, props=None):
+                 viewacct=False, entrydepth=1, maxnodes=99, uar=False, targets=None, workers=8, timeout=1200, root="MC", extra_consts=None,
+                 inv=None, props=None, profile="dev", release_targets=()):
+        self.profile = profile
+        self.release_targets = list(release_targets)
         self.name, self.acts, self.emit = name, acts, emit
         self.consts = dict(KeyLen=str(keylen), Base=base, Hosts=hosts, Vals=vals, Acts=tset(acts),
                            MaxCount=str(maxcount), MaxNodes=str(maxnodes), EmitActs=tset(emit),
-                           ViewAcct="TRUE" if viewacct else "FALSE", EntryDepth=str(entrydepth))
+                           ViewAcct="TRUE" if viewacct else "FALSE", EntryDepth=str(entrydepth),
+                           UseAfterRemove="TRUE" if uar else "FALSE")
         if extra_consts:
             self.consts.update(extra_consts)
         self.targets = targets or [(t, "map", "plain") for t in QUICK_TYPES]
@@ -120,7 +123,7 @@ class TraceJob:
 def trace_jobs(prop, tier):
     q = tier == "quick"
     pair_props = ("C05", "C06", "C07", "C08", "C19")
-    prof = "pairs" if prop in pair_props else ("viewmut" if prop == "C04" else "full")
+    prof = "pairs" if prop in pair_props else ("viewmut" if prop == "C04" else ("faults" if prop == "C20" else "full"))
     if q:
         ts = ["u32", "Ipv6Net", "u8", "Ipv4Inet"]
         return [TraceJob(t, prof, runs=4, events=300, salt=i) for i, t in enumerate(ts)]
@@ -207,6 +210,29 @@ def plan(prop, tier):
                          targets=targets(hostful) + targets(["u32"], ("set",))),
                 PairJob("c18_pairs", IR, IR, pops, 2, 2, hosts='{"0","2"}', timeout=200, nodes_a=2 if q else 3, nodes_b=2,
                         targets=[(t, "map-map", "plain") for t in (["u32", "Ipv6Net"] if q else hostful)])]
+    if prop == "C20":
+        allobs = ["Get", "GetKV", "Contains", "Lpm", "Spm", "Cover", "Children", "Iter", "Len", "ViewDesc", "Find"]
+        allmut = MUT + ["Entry", "GetMut", "LpmMut", "IterMut", "ValuesMut", "ChildrenMut", "ViewValueMut", "ViewIterMut"]
+        every = allmut + allobs
+        bt = ALL_TYPES
+        jobs = [
+            # the whole single-map API at the boundary lengths width-2 .. width of every shipped prefix type,
+            # in debug mode (overflow checks, debug assertions) and in release mode (as shipped)
+            TableJob("c20_boundary", every, every, base="<<1>>", maxcount=2, maxnodes=3 if q else 4,
+                     targets=targets(bt, ("map",), ("stretch:2",)) + targets(["u8", "u128", "Ipv4Cidr"], ("set",), ("stretch:2",)),
+                     release_targets=targets(["u8", "u32", "u128", "Ipv6Net"] if q else bt, ("map",), ("stretch:2",))),
+            # user callbacks that panic at every invocation index: the map stays valid (C20, second half)
+            TableJob("c20_faults", core + ["RetainPanic", "Entry"], ["Retain", "Entry"], maxcount=3 if q else 4,
+                     entrydepth=1 if q else 2, targets=targets(types) + sets),
+            # the listed finding F7: OccupiedEntry used after its remove()
+            TableJob("c20_f7", ["Insert", "Remove", "Entry"], ["Entry"], maxcount=2, uar=True, targets=targets(["u32", "Ipv4Net"])),
+        ]
+        pops = ["Union", "Inter", "Diff", "CovDiff", "UnionMut", "InterMut", "DiffMut", "CovDiffMut", "Eq"]
+        IRx = ["Insert", "Remove"]
+        jobs.append(PairJob("c20_pairs", IRx if q else ["Insert", "Remove", "RemoveKeepTree"], IRx, pops, 2, 2,
+                            base="<<1>>", nodes_a=4 if q else 5, nodes_b=4,
+                            targets=[(t, "map-map", "stretch:2") for t in (["u8", "u64", "Ipv6Inet"] if q else bt)]))
+        return jobs
     if prop == "C15":
         return [TableJob("c15_u2", MUT, MUT, targets=both),
                 u3c("c15_u3c", ["Insert", "Remove", "Retain"]),
@@ -219,7 +245,7 @@ def plan(prop, tier):
 
 
 LEVEL = {p: "model_checking" for p in ["C01", "C02", "C03", "C04", "C05", "C06", "C07", "C08", "C09", "C10", "C11", "C12",
-                                       "C13", "C15", "C16", "C18", "C19"]}
+                                       "C13", "C15", "C16", "C18", "C19", "C20"]}
 
 
 def run_c17(tier):
@@ -273,6 +299,7 @@ def run_check(prop, tier):
     if "err" in built:
         raise built["err"]
     binpath = built["bin"]
+    relbin = vlib.build_harness("release") if any(getattr(j, "release_targets", None) for j in jobs) else None
     reports = []
     tjobs = trace_jobs(prop, tier) if prop in TRACE_PROPS else []
     with cf.ThreadPoolExecutor(max_workers=8) as ex:
@@ -280,8 +307,12 @@ def run_check(prop, tier):
         futs = []
         for j, r in zip(jobs, tlc_results):
             for (t, c, x) in j.targets:
-                futs.append(ex.submit(vlib.replay_rows, binpath, r["rows_file"], t, c, x,
+                b = relbin if getattr(j, "profile", "dev") == "release" else binpath
+                futs.append(ex.submit(vlib.replay_rows, b, r["rows_file"], t, c, x,
                                       cmdname=getattr(j, "replay_cmd", "replay")))
+            for (t, c, x) in getattr(j, "release_targets", []):
+                futs.append(ex.submit(vlib.replay_rows, relbin, r["rows_file"], t, c + "", x,
+                                      cmdname=getattr(j, "replay_cmd", "replay"), extra=("--tag", "release")))
         for f in futs:
             reports.append(f.result())
         traces = [f.result() for f in tfuts]
@@ -293,7 +324,7 @@ def run_check(prop, tier):
     return conclude(prop, tier, t0, jobs, tlc_results, reports, traces)
 
 
-TRACE_PROPS = {"C01", "C02", "C03", "C04", "C05", "C06", "C07", "C08", "C09", "C10", "C11", "C12", "C13", "C15", "C16",
+TRACE_PROPS = {"C20", "C01", "C02", "C03", "C04", "C05", "C06", "C07", "C08", "C09", "C10", "C11", "C12", "C13", "C15", "C16",
                "C18", "C19"}
 
 
@@ -394,6 +425,12 @@ def conclude(prop, tier, t0, jobs, tlc_results, reports, traces=()):
         for kf in vlib.load_known_findings():
             if kf["property"] == "C04" and kf["status"] == "open":
                 print(f"KNOWN-FINDING: property=C04 {kf['id']}: {kf['what']} ({kf['site']})")
+    kf7 = sum(r.get("kf_f7_rows", 0) for r in reports)
+    cov["rows_with_use_after_remove_panic_F7"] = kf7
+    if prop == "C20" and kf7:
+        for kf in vlib.load_known_findings():
+            if kf["property"] == "C20" and kf["status"] == "open":
+                print(f"KNOWN-FINDING: property=C20 {kf['id']}: {kf['what']} ({kf['site']})")
     viol = 0
     seen = set()
     for mm in mine:
